@@ -347,6 +347,20 @@ func runGsm7(c Case, tr *Tracer) {
 			out = nil
 		}
 		tr.emit(Ev{"ev": "EncPacked", "text": sc, "out": B(out), "err": err2 != nil, "site": "GSM7Packed.Encode"})
+		if fc := datacoding.NewSMPPCodec(datacoding.SMPP_CODING_GSM7_PACKED, text); fc != nil {
+			out, err2 = fc.Encode()
+			if err2 != nil {
+				out = nil
+			}
+			tr.emit(Ev{"ev": "EncPacked", "text": sc, "out": B(out), "err": err2 != nil, "site": "NewSMPPCodec(packed).Encode"})
+		}
+		if fc := datacoding.GetSMPPCodec(datacoding.SMPP_CODING_GSM7_UNPACKED, text); fc != nil {
+			out, err2 = fc.Encode()
+			if err2 != nil {
+				out = nil
+			}
+			tr.emit(Ev{"ev": "Enc", "text": sc, "out": B(out), "err": err2 != nil, "site": "GetSMPPCodec(unpacked).Encode"})
+		}
 		out, _, err2 = transform.Bytes(gsm7.GSM7(true).NewEncoder(), []byte(text))
 		if err2 != nil {
 			out = nil
